@@ -5,6 +5,17 @@ open Crs
 def respond (op : String) (args : List Bytes) : String :=
   match op, args with
   | "renumber.processYaml", [ruleId, contents] => "ok " ++ toHexArg (Renumber.processYaml ruleId contents)
+  | "copyright.updateRules", [v, y, c] => "ok " ++ toHexArg (Copyright.updateRules v y c)
+  | "copyright.sub", [k, v, l] =>
+    "ok " ++ toHexArg (match k with
+      | ['1'] => Copyright.sub1 v l
+      | ['2'] => Copyright.sub2 (Copyright.digitsOf v) l
+      | ['3'] => Copyright.sub3 v l
+      | ['4'] => Copyright.sub4 v l
+      | ['5'] => Copyright.sub5 v l
+      | _ => l)
+  | "std.runeLen", [b] => "ok " ++ toHexArg (natToBytes (runeLen b))
+  | "std.natToBytes", [b] => "ok " ++ toHexArg (natToBytes b.length)
   | "std.scanLines", [b] => "ok " ++ " ".intercalate ((scanLines b).map toHexArg)
   | "std.isBlank", [b] => "ok " ++ (if isBlank b then "01" else "00")
   | _, _ => "bad-op"
